@@ -1,7 +1,10 @@
 """C18 — medium get/set are inverse and a minimal medium is sufficient and minimal.
 
-PROOF: lean/CobraModel/Props/C18.lean (setter / getter model, get∘set, import as split variable).
-TIE:   the setter is compared with an independent description of the expected bounds, the getter with the positive entries;
+PROOF: lean/CobraModel/Props/C18.lean (setter / getter model, get∘set, import as split variable, big M dominates every import and the indicator
+       rows are exact for it).
+TIE:   the executable model (Model/Medium.lean: getter, setter, big M) is run on the model's own exchanges through the line driver and compared
+       with Model.medium before / after the assignment, the bounds the setter leaves, and the coefficient add_mip_obj gives the indicators;
+       the setter is also compared with an independent description of the expected bounds, the getter with the positive entries;
        minimal_medium: total import (or number of components) against optima certified by the proved LP checker (subset enumeration
        with certified feasibility / infeasibility for the component count), sufficiency by applying the returned medium, and
        None exactly when the requirement is certified infeasible.
@@ -126,6 +129,28 @@ def check_setter(case):
         warnings.simplefilter("ignore")
         m = coreops.build_model(spec)
         got0 = m.medium
+        # the Lean model (Model/Medium.lean) on the exchanges as the implementation sees them
+        lean_exs = [[r.id, bool(r.reactants), canon.num(r.lower_bound), canon.num(r.upper_bound)] for r in m.exchanges]
+        lean = json.loads(common.run_driver_persistent("medium", [json.dumps({"exs": lean_exs, "med": [[k, n2s(v)] for k, v in med.items()]})])[0])
+        corr = []
+        if "bad-line" in lean:
+            corr.append(f"driver: {lean}")
+        else:
+            if {k: F(v) for k, v in lean["before"]} != {k: F(v) for k, v in got0.items()}:
+                corr.append(f"getter: model {lean['before']} vs implementation {got0}")
+            try:
+                from cobra.medium.minimal_medium import add_mip_obj
+                with m:
+                    add_mip_obj(m)
+                    coefs = set()
+                    for r in m.exchanges:
+                        c = m.constraints["ind_constraint_" + r.id]
+                        ind = m.variables["ind_" + r.id]
+                        coefs.add(F(-c.get_linear_coefficients([ind])[ind]))
+                if coefs and coefs != {F(lean["bigm"])}:
+                    corr.append(f"big M: model {lean['bigm']} vs implementation {sorted(map(float, coefs))}")
+            except Exception as e:
+                corr.append(f"big M: reading the indicator rows raised {type(e).__name__}: {e}")
         want0 = {k: (-e["lb"] if e["reactant"] else e["ub"]) for k, e in exs.items()}
         want0 = {k: float(v) for k, v in want0.items() if v > 0}
         if {k: float(v) for k, v in got0.items()} != want0:
@@ -147,6 +172,14 @@ def check_setter(case):
                 fails.append(f"import bound of {k} is {imp}, expected {float(want)}")
             if F(exp) != old_exp:
                 fails.append(f"export bound of {k} changed from {float(old_exp)} to {exp}")
+        if "bad-line" not in lean:
+            after = {r.id: (F(r.lower_bound), F(r.upper_bound)) for r in m.exchanges}
+            if {k: (F(a), F(b)) for k, a, b in lean["set"]} != after:
+                corr.append(f"setter: model {lean['set']} vs implementation { {k: (float(a), float(b)) for k, (a, b) in after.items()} }")
+            if {k: F(v) for k, v in lean["after"]} != {k: F(v) for k, v in m.medium.items()}:
+                corr.append(f"getter after the assignment: model {lean['after']} vs implementation {m.medium}")
+        if corr:
+            case["_corr"] = corr
         back = {k: float(v) for k, v in m.medium.items()}
         wantback = {k: float(v) for k, v in med.items() if v > 0}
         if back != wantback:
@@ -238,13 +271,14 @@ def run(ctx):
                 print(f"VIOLATION property=C18 replay={ctx.replay}")
                 return 1
         return 0
-    common.proof_stage(ctx, "CobraModel.Props.C18", extra_scan=["CobraModel/Lemmas/Formulations.lean", "CobraModel/Lemmas/LP.lean"])
+    common.proof_stage(ctx, "CobraModel.Props.C18", extra_scan=["CobraModel/Lemmas/Formulations.lean", "CobraModel/Lemmas/LP.lean", "CobraModel/Model/Medium.lean"])
     rng = ctx.rng
     n = ctx.scale(300, 6000)
     ran, tries = 0, 0
     skipped, kinds = {}, {"setter": 0, "minimal": 0, "minimal-none": 0, "components": 0}
     distinct = set()
     samples = []
+    corr_n = 0
     corpus = common.load_corpus("C18")
     while ran < n and tries < n * 3 and not ctx.violations:
         tries += 1
@@ -257,17 +291,22 @@ def run(ctx):
         kinds[case["kind"]] += 1
         if case["kind"] == "minimal" and case["minimize_components"]:
             kinds["components"] += 1
-        distinct.add(json.dumps(case, sort_keys=True))
+        distinct.add(json.dumps({k: v for k, v in case.items() if not k.startswith("_")}, sort_keys=True))
         if len(samples) < 2:
-            samples.append(case)
+            samples.append({k: v for k, v in case.items() if not k.startswith("_")})
+        if case.get("_corr") and len(ctx.broken) < 3:
+            ctx.broken.append({"kind": "correspondence", "name": "MediumM (getter / setter / big M) vs Model.medium and add_mip_obj",
+                               "detail": "; ".join(case["_corr"])[:600], "case": {k: v for k, v in case.items() if not k.startswith("_")}})
+        corr_n += case["kind"] == "setter"
         if fails:
-            ctx.violations.append({"engine": "medium vs independent oracle / certified optima", "case": case, "failures": fails[:6]})
+            ctx.violations.append({"engine": "medium vs independent oracle / certified optima", "case": {k: v for k, v in case.items() if not k.startswith("_")}, "failures": fails[:6]})
     ctx.coverage.update({
         "evaluations": ran, "distinct_nontrivial": len(distinct),
         "rule": "models with 2-5 exchanged metabolites (exchange written `met -->` or `--> met`, external compartment e, transporters, conversions, a biomass "
                 "reaction with optional by-product) x medium sub-dictionaries with non-negative values / minimal_medium(min_objective_value achievable or "
                 "not, exports, minimize_components, open_exchanges False/True/50); counted: distinct cases",
         "samples": samples, "skipped": skipped, "kinds": kinds, "traces_validated_against_impl": ran,
+        "setter_cases_compared_with_lean_model": corr_n,
     })
     ctx.assumptions += [
         "GLPK (LP/MILP) external: totals compared with certified optima within 1e-5; components below 1e-3 are not counted (documented detection limit of the MIP)",
